@@ -5,9 +5,9 @@ package main
 
 import (
 	"bytes"
-	"encoding/json"
 	"encoding/base64"
 	"encoding/binary"
+	"encoding/json"
 	"fmt"
 	"math"
 	"math/rand"
@@ -228,10 +228,16 @@ func hostileTokens(seed int64) (map[string][]byte, error) {
 	add("meta-deep-20000", "dlg", func(e *envelopeParts) { e.payload["meta"] = mapNode(map[string]ipld.Node{"x": deepList(20000)}) })
 	add("pol-deep-not-5000", "dlg", func(e *envelopeParts) { e.payload["pol"] = deepNot(5000) })
 	add("pol-deep-not-60000", "dlg", func(e *envelopeParts) { e.payload["pol"] = deepNot(60000) })
-	add("args-int-maxint64", "inv", func(e *envelopeParts) { e.payload["args"] = mapNode(map[string]ipld.Node{"x": basicnode.NewInt(math.MaxInt64)}) })
-	add("args-int-minint64", "inv", func(e *envelopeParts) { e.payload["args"] = mapNode(map[string]ipld.Node{"x": basicnode.NewInt(math.MinInt64)}) })
+	add("args-int-maxint64", "inv", func(e *envelopeParts) {
+		e.payload["args"] = mapNode(map[string]ipld.Node{"x": basicnode.NewInt(math.MaxInt64)})
+	})
+	add("args-int-minint64", "inv", func(e *envelopeParts) {
+		e.payload["args"] = mapNode(map[string]ipld.Node{"x": basicnode.NewInt(math.MinInt64)})
+	})
 	add("args-uint-max", "inv", func(e *envelopeParts) { e.payload["args"] = mapNode(map[string]ipld.Node{"x": bigU64}) })
-	add("args-uint-nested", "inv", func(e *envelopeParts) { e.payload["args"] = mapNode(map[string]ipld.Node{"x": listOf(mapNode(map[string]ipld.Node{"y": bigU64}))}) })
+	add("args-uint-nested", "inv", func(e *envelopeParts) {
+		e.payload["args"] = mapNode(map[string]ipld.Node{"x": listOf(mapNode(map[string]ipld.Node{"y": bigU64}))})
+	})
 	add("pol-uint-max", "dlg", func(e *envelopeParts) { e.payload["pol"] = listOf(listOf(str(">"), str(".x"), bigU64)) })
 	add("exp-uint-max", "dlg", func(e *envelopeParts) { e.payload["exp"] = bigU64 })
 	add("meta-uint-max", "dlg", func(e *envelopeParts) { e.payload["meta"] = mapNode(map[string]ipld.Node{"x": bigU64}) })
